@@ -16,6 +16,12 @@
 (*                           writer (<<>> = none; never Basic/Bearer)       *)
 (*   hdrs, query, form : Seq([k, v])  parameters set by the params writer  *)
 (*   media   : "none" | "urlencoded" | "multipart"  form encoding          *)
+(*   static  : Seq([k, v])   static query parameters of the configuration: *)
+(*                           those of the Runtime's base path, then those  *)
+(*                           of the operation's path pattern               *)
+(*   debug   : BOOLEAN       Runtime.Debug (requests are dumped to the log) *)
+(*   transport : "direct" (CreateHttpRequest) | "server" (Submit: the      *)
+(*                           request is really sent)                       *)
 (* A server authenticator `A`:                                             *)
 (*   [kind |-> "basic"|"apikey"|"bearer", name (apikey key name: bytes),  *)
 (*    scheme (bearer scheme name), in, realm : STRING, scopes,             *)
@@ -27,9 +33,13 @@
 EXTENDS Integers, Sequences, FiniteSets, TLC
 
 CONSTANT Mutant   \* "none" | "formvalue" (the tree as found, D27) | "urlb64" | "lastcolon" | "queryfirst" | "defaultalways" | "nolower"
+                  \* | "staticbeforeauth" (the client-set query parameters are snapshot before the auth writer ran)
+                  \* | "redactsent" (with Debug on the Authorization header redacted for the dump is what Submit sends)
+                  \* | "stickydefault" (the default-authentication wrapper is built once and keeps the first default)
 
 COLON == 58
 ACCESS == <<97, 99, 99, 101, 115, 115, 95, 116, 111, 107, 101, 110>>    \* "access_token"
+REDACTED == <<91, 114, 101, 100, 97, 99, 116, 101, 100, 93>>             \* "[redacted]"
 DefaultRealm == "API"
 
 Lower(s) == [i \in 1..Len(s) |-> IF s[i] >= 65 /\ s[i] <= 90 THEN s[i] + 32 ELSE s[i]]
@@ -71,10 +81,46 @@ WireAuthz(in) ==
   ELSE IF in.authz # <<>> THEN [t |-> "raw", u |-> <<>>, p |-> in.authz]
   ELSE NoAuthz
 
-Wire(in) == [authz |-> WireAuthz(in),
+\* buildHTTP: the static query parameters of the base path / path pattern are merged in after the auth writer ran; a
+\* static parameter is set (SetQueryParam: replaces) only when no parameter of that name was set by the client - by the
+\* params writer or by the auth writer.  In the association lists the last entry of a key is the one on the wire.
+KeysOf(kvs) == {kvs[i].k : i \in 1..Len(kvs)}
+ClientSetQuery(in) == in.query \o WriterQuery(EffectiveWriters(in))
+SnapshotKeys(in) == IF Mutant = "staticbeforeauth" THEN KeysOf(in.query) ELSE KeysOf(ClientSetQuery(in))    \* originalParams
+WireQuery(in) == ClientSetQuery(in) \o SelectSeq(in.static, LAMBDA e : e.k \notin SnapshotKeys(in))
+
+\* Submit with Debug on dumps the request (httputil.DumpRequestOut) and sends it unchanged
+SentAuthz(in) ==
+  LET a == WireAuthz(in) IN
+  IF Mutant = "redactsent" /\ in.debug /\ in.transport = "server" /\ a.t # "none"
+  THEN (IF a.t = "bearer" THEN [t |-> "bearer", u |-> <<>>, p |-> REDACTED] ELSE [t |-> "raw", u |-> <<>>, p |-> REDACTED])
+  ELSE a
+
+Wire(in) == [authz |-> SentAuthz(in),
              hdrs  |-> in.hdrs \o WriterHdrs(EffectiveWriters(in)),
-             query |-> in.query \o WriterQuery(EffectiveWriters(in)),
+             query |-> WireQuery(in),
              form  |-> in.form, media |-> in.media]
+
+---------------------------------------------------------------------------
+(* ONE Runtime, MANY requests.  Between requests the application may       *)
+(* REPLACE the configuration (Runtime.DefaultAuthentication: token         *)
+(* refresh, other scheme; Runtime.Debug).  A correct Runtime remembers     *)
+(* nothing but that configuration: a request is built from the fields as   *)
+(* they are when it is made.                                               *)
+(*  cfg = [def : Seq(writer), debug : BOOLEAN]                             *)
+(*  mem = [firstdef : <<>> | <<def>>]  - empty for ever in the faithful    *)
+(*        model; the mutant keeps the default seen at first use            *)
+RtMem0 == [firstdef |-> <<>>]
+
+\* createHttpRequest: `auth == nil && r.DefaultAuthentication != nil` - the wrapper calls r.DefaultAuthentication
+UsesDefault(cfg, req) == req.op = <<>> /\ cfg.def # <<>>
+DefaultWriter(mem, cfg) == IF Mutant = "stickydefault" /\ mem.firstdef # <<>> THEN mem.firstdef[1] ELSE cfg.def
+
+\* the case as the configuration in force defines it / as the implementation sees it
+InForceCase(cfg, req) == [req EXCEPT !.def = cfg.def, !.debug = cfg.debug]
+RtRequest(mem, cfg, req) ==     \* -> [mem, seen]
+  [mem  |-> IF Mutant = "stickydefault" /\ UsesDefault(cfg, req) /\ mem.firstdef = <<>> THEN [firstdef |-> <<cfg.def>>] ELSE mem,
+   seen |-> [req EXCEPT !.def = IF UsesDefault(cfg, req) THEN DefaultWriter(mem, cfg) ELSE cfg.def, !.debug = cfg.debug]]
 
 ---------------------------------------------------------------------------
 (* Server side, as coded                                                   *)
@@ -149,9 +195,11 @@ CarriedBasic(in) ==
   IF WrittenAuthz(in) # <<>> /\ Last(WrittenAuthz(in)).t = "basic"
   THEN <<[u |-> Last(WrittenAuthz(in)).u, p |-> Last(WrittenAuthz(in)).p]>> ELSE <<>>
 
+\* query parameters by increasing precedence: static ones of the base path, of the path pattern, those set by the params
+\* writer, those written by the credential writers
 CarriedAPIKey(in, A) ==
   LET written == SelectSeq(InForce(in), LAMBDA w : w.t = "apikey" /\ w.in = A.in)
-      all     == (IF A.in = "header" THEN in.hdrs ELSE in.query) \o [i \in 1..Len(written) |-> [k |-> written[i].name, v |-> written[i].p]]
+      all     == (IF A.in = "header" THEN in.hdrs ELSE in.static \o in.query) \o [i \in 1..Len(written) |-> [k |-> written[i].name, v |-> written[i].p]]
       m       == LastMatch(all, A.name, IF A.in = "header" THEN "header" ELSE "exact")
   IN IF m = <<>> \/ m[1] = <<>> THEN <<>> ELSE m
 
@@ -159,7 +207,7 @@ CarriedAPIKey(in, A) ==
 CarriedBearer(in) ==
   LET hdr  == IF WrittenAuthz(in) # <<>> /\ Last(WrittenAuthz(in)).t = "bearer" THEN Last(WrittenAuthz(in)).p ELSE <<>>
       wq   == SelectSeq(InForce(in), LAMBDA w : w.t = "apikey" /\ w.in = "query")
-      qm   == LastMatch(in.query \o [i \in 1..Len(wq) |-> [k |-> wq[i].name, v |-> wq[i].p]], ACCESS, "exact")
+      qm   == LastMatch(in.static \o in.query \o [i \in 1..Len(wq) |-> [k |-> wq[i].name, v |-> wq[i].p]], ACCESS, "exact")
       q    == IF qm = <<>> THEN <<>> ELSE qm[1]
       fm   == IF in.media \in {"urlencoded", "multipart"} THEN LastMatch(in.form, ACCESS, "exact") ELSE <<>>
       f    == IF fm = <<>> THEN <<>> ELSE fm[1]
